@@ -168,7 +168,9 @@ func layout1(t types.Type) []Comp {
 		}
 	case *types.Interface:
 		return []Comp{{Name: "tag", Sort: SInt, Kind: KIfaceTag}, {Name: "pay", Sort: SInt, Kind: KIfacePay}}
-	case *types.Map, *types.Chan, *types.Signature:
+	case *types.Map:
+		return []Comp{{Name: "id", Sort: SInt, Kind: KOpaque, Typ: u}}
+	case *types.Chan, *types.Signature:
 		return []Comp{{Name: "id", Sort: SInt, Kind: KOpaque}}
 	case *types.Struct:
 		var cs []Comp
